@@ -614,9 +614,9 @@ def limops_oracle(cfg: tuple, ops: list[tuple], obs: list[tuple]) -> str | None:
         prod = 1
         for x in loops:
             prod *= x
-        if lp and prod > lp:
+        if lp is not None and loops and prod > lp:
             return f"step {i}: {prod} iterations of nested loops under limit {lp}"
-        if ns:
+        if ns is not None:
             tot = sum(sum(v for _, v in fr[5]) for fr in frames)
             if tot > ns:
                 return f"step {i}: {tot} bytes of locals under limit {ns}"
@@ -1222,6 +1222,15 @@ def cyclic_programs(r: Any, thorough: bool) -> list[dict[str, Any]]:
         add(f"cyc-extends{k}", tpls, "TemplateInheritanceError")
     add("cyc-extends-tail", {"main": "{% extends 'q1' %}", "q1": "{% extends 'q2' %}",
                              "q2": "{% extends 'q1' %}"}, "TemplateInheritanceError")
+    def blocks(levels: int, inner: str) -> str:
+        return ("".join("{%% for v%d in (1..1) %%}{%% if true %%}" % i for i in range(levels)) + inner
+                + "{% endif %}{% endfor %}" * levels)
+    # under the default limit of 30 these need more interpreter frames than CPython has
+    add("cyc-deep-blocks3", {"main": blocks(3, "{% render 'main' %}")}, "ContextDepthError")
+    add("cyc-deep-blocks4", {"main": blocks(4, "{% render 'q1' %}"), "q1": blocks(3, "{% render 'main' %}")},
+        "ContextDepthError")
+    add("cyc-deep-macro", {"main": blocks(5, "{% macro m %}{% render 'main' %}{% endmacro %}{% call m %}")},
+        "ContextDepthError")
     add("cyc-block-render", {"main": "{% extends 'q1' %}{% block b %}{% render 'main' %}{% endblock %}",
                              "q1": "A{% block b %}{% endblock %}"}, "ContextDepthError")
     # guarded recursion: depth decided by data
@@ -1342,6 +1351,8 @@ def sweep_values(kind: str, m: dict[str, Any], thorough: bool) -> list[int]:
         vals = {m["bytes_need"] + d for d in ds} | {m["bytes_out"] + d for d in ds}
     else:
         vals = {m[kind + "_need"] + d for d in ds}
+        if kind in ("loop", "ns"):
+            vals.add(0)          # a limit of 0 is enforced, it does not mean "unlimited"
     return sorted(v for v in vals if v >= 0)
 
 
@@ -1352,7 +1363,7 @@ def judge(prog: dict[str, Any], m: dict[str, Any], kind: str, L: int, res: dict[
     pid = prog["id"]
     if o not in ("ok", err):
         return (f"{kind}:unexpected-exception", f"{pid}: {kind} limit {L}: raised {o}")
-    active = kind in ("output", "depth") or L >= 1
+    active = True   # 0 is a limit like any other (fix 0006); only None switches a limit off
     if res["root_ctx"] != (0, 4):
         return ("stale-context-state",
                 f"{pid}: after the render the root context has {res['root_ctx'][0]} loops, scope size {res['root_ctx'][1]}")
@@ -1493,7 +1504,7 @@ def main(chk: C.Check, build: C.Build) -> None:
     rb_items: list[dict[str, Any]] = []
     flips: set[tuple[str, str]] = set()
     samples: list[dict[str, Any]] = []
-    budget = [1_500_000 if thorough else 220_000]   # numerals for derived traces
+    budget = [1_500_000 if thorough else 140_000]   # numerals for derived traces
 
     def add_traces(prog: dict[str, Any], kind: str, limits: dict[str, Any], res: dict[str, Any]) -> None:
         tr = res["tr"]
@@ -1555,11 +1566,11 @@ def main(chk: C.Check, build: C.Build) -> None:
                                         f"render_with_context gives {res['outcome']}",
                                         {"templates": prog["templates"], "limit": {kind: L}, "async": use_async})
             if need >= 1 and outcomes.get(need) == "ok" and outcomes.get(need - 1) == KIND_ERR[kind] \
-                    and (kind in ("output", "depth") or need >= 2):
+                    and need >= 1:
                 flips.add((prog["id"], kind))
         # all limits at exactly the consumption: invisible
-        limits = {"output": m["bytes_need"], "loop": m["loop_need"] or None, "depth": m["depth_need"],
-                  "ns": m["ns_need"] or None}
+        limits = {"output": m["bytes_need"], "loop": m["loop_need"], "depth": m["depth_need"],
+                  "ns": m["ns_need"]}
         if not (m["super_outer_loops"] or m["super_assign"]):
             res = traced_render(env_for(prog, **limits), "main", prog["data"], trace_buffers=True)
             evaluations += 1
@@ -1618,6 +1629,9 @@ def main(chk: C.Check, build: C.Build) -> None:
                 continue
             po, _ = plain_render(env_for(prog, depth=L), "main", prog["data"], use_async=(L % 2 == 1))
             evaluations += 1
+            if L == 30 and po == res["outcome"]:
+                po, _ = plain_render(env_for(prog, depth=L), "main", prog["data"], use_async=True)
+                evaluations += 1
             if po != res["outcome"]:
                 chk.finding("depth:api-path-differs", f"{prog['id']}: Template.render gives {po}, traced {res['outcome']}",
                             {"templates": prog["templates"], "depth_limit": L})
@@ -1670,7 +1684,8 @@ def main(chk: C.Check, build: C.Build) -> None:
         "tier_proved": "kernel (buffer stack machine; context limit state machine; tree interpreter for termination)",
     })
     chk.assumptions += [
-        "limits are non-negative ints; loop_iteration_limit / local_namespace_limit 0 mean 'no limit' (Python truthiness), as the code treats them",
+        "limits are non-negative ints; only None switches a limit off (0 is enforced, fix 0006)",
+        "ContextDepthError is also what an exhausted CPython stack is reported as (fix 0005); the model covers the depth counters, not the frame count",
         "sys.getsizeof(value) is a parameter of Assign (measured per case); it is not modelled",
         "LimitedStringIO's initial_value argument (never used by liquid2) is not modelled",
         "counted/plain guards: theorems about loop nests, local sizes and depth quantify over operation sequences without block.super (known findings block-super-loop-escape, block-super-namespace-escape)",
